@@ -26,5 +26,9 @@ CHECK = dict(
             dict(name="concurrent", run="^TestVerifC07StackConcurrent$", quick=2000, thorough=48000, shards_quick=2, shards_thorough=6, env=_env),
             dict(name="concurrent-race", run="^TestVerifC07StackConcurrent$", quick=250, thorough=8000, shards_thorough=4, race=True, env=_env),
         ]),
+        dict(name="sockets", dir="internal/dnsserver", src="C07/sockets", runs=[
+            dict(name="clients", run="^TestVerifC07Sockets$", quick=40, thorough=2000, shards_thorough=4),
+            dict(name="clients-race", run="^TestVerifC07Sockets$", quick=10, thorough=200, shards_thorough=2, race=True),
+        ]),
     ],
 )
